@@ -15,6 +15,8 @@ KIN = {
     "orders_q": dict(cat="Cat8", maxr=2, orders="OrdAll", full="FALSE", names="NmIon", cont="CtAll"),
     "frac_q": dict(cat="Cat8", maxr=2, points="PtsFrac", feeds="Fd2"),
     "hist_q": dict(cat="Cat8", maxr=2, phases="Ph2", rek="ReK1", maxhist=2, pforms="PfMa"),
+    "zero_q": dict(cat="Cat8", maxr=2, points="PtsZero", feeds="FdZero", kvals="KZ", pforms="PfAll"),
+    "zero_t": dict(cat="Cat32", maxr=2, points="PtsZero", feeds="FdZero", kvals="KZ", pforms="PfAll", cont="CtAll"),
     "sys3_t": dict(cat="Cat32", maxr=3),
     "sys2_t": dict(cat="Cat64", maxr=2, points="Pts2", pforms="PfAll"),
     "cstr_t": dict(cat="Cat32", maxr=2, points="Pts2", feeds="Fd2", cont="CtAll"),
@@ -26,9 +28,11 @@ KIN = {
 }
 ODE = {
     "main_q": dict(cat="Cat3", maxr=2, full="FALSE", configs="CfgMainQ", rek="ReK1", maxhist=1, names="NmIon"),
-    "feeds_q": dict(cat="Cat3", maxr=2, full="FALSE", feeds="FdKinds", configs="CfgFeedsQ"),
+    "feeds_q": dict(cat="Cat2", maxr=2, full="FALSE", feeds="FdKinds", configs="CfgFeedsQ"),
     "sys_q": dict(cat="Cat8", maxr=2, full="FALSE", configs="CfgThree", names="NmIon"),
     "full_q": dict(cat="Cat8", maxr=1, orders="OrdTwo", feeds="Fd1", configs="CfgFewBoth"),
+    "zero_q": dict(cat="Cat2", maxr=2, full="FALSE", points="PtsZ1", feeds="FdZero2", kvals="KZ", configs="CfgZeroQ"),
+    "zero_t": dict(cat="Cat8", maxr=2, full="FALSE", points="PtsZero", feeds="FdZero", kvals="KZ", configs="CfgZero"),
     "cfg_t": dict(cat="Cat8", maxr=2, full="FALSE", feeds="Fd1", configs="CfgAll"),
     "comp_t": dict(cat="Cat4", maxr=2, orders="OrdTwo", full="FALSE", feeds="Fd1", configs="CfgAllComp"),
     "sys_t": dict(cat="Cat32", maxr=2, full="FALSE", configs="CfgFew", names="NmIon"),
@@ -48,7 +52,8 @@ ODE = {
 def body(d, ode):
     d = dict(DEF, **d)
     lines = ["INIT %s" % ("OInit" if ode else "Init"), "NEXT %s" % ("ONext" if ode else "Next"), "CONSTANTS",
-             '  Species = {"A", "B", "C", "D"}', "  Catalog <- %s" % d["cat"], "  MaxR = %d" % d["maxr"], "  KVals <- K3",
+             '  Species = {"A", "B", "C", "D"}', "  Catalog <- %s" % d["cat"], "  MaxR = %d" % d["maxr"],
+             "  KVals <- %s" % d.get("kvals", "K3"),
              "  Orders <- %s" % d["orders"], "  FullOrder = %s" % d["full"], "  Points <- %s" % d["points"],
              "  Feeds <- %s" % d["feeds"], "  PhaseMaps <- %s" % d["phases"], "  ReKVals <- %s" % d["rek"],
              "  MaxHist = %d" % d["maxhist"], "  NameMap <- %s" % d["names"], "  PForms <- %s" % d["pforms"],
